@@ -6,7 +6,9 @@ SPEC = {
     "theorems": {"Properties.C09": [
         "C09_is_match_eq_doc", "C09_is_match_eq_doc_selects", "C09_block_is_conjunction", "C09_state_default",
         "C09_removed_default_unobservable", "C09_labels_see_group_labels", "C09_labels_are_doc_labels",
-        "C09_group_labels_untouched", "C09_group_labels_untouched_prefix_refuted", "C09_group_labels_untouched_prefix_partial", "C09_duration_ops", "C09_nonvacuous"]},
+        "C09_group_labels_untouched", "C09_group_labels_untouched_prefix_refuted", "C09_group_labels_untouched_prefix_partial", "C09_duration_ops", "C09_nonvacuous",
+        "C09_command_condition", "C09_path_name_conditions", "C09_kind_condition", "C09_state_condition", "C09_annotation_condition",
+        "C09_label_condition", "C09_duration_conditions", "C09_duration_parse_error_quirk", "C09_conditions_nonvacuous"]},
     "harness_args": lambda tier: ["C09", "--n", 40 if tier == "quick" else 1500],
     "search_args": lambda tier: ["C09", "--n", 200],
     "level": "proof",
